@@ -354,12 +354,21 @@ class RoundTrips:
         if len(out) != len(self.lines):
             run.broke("correspondence", "driver answered %d lines for %d round-trip requests" % (len(out), len(self.lines)))
             return
+        representable = run.cov.setdefault("left_handed_representation", {})
         for (interface, what, cin, meta, diag, site, order), verdict, req in zip(self.meta, out, self.lines):
             run.count("round trips checked by checkEquiv", section="oracle")
             run.count("roundtrip %s" % interface)
             if verdict not in ("true", "false"):
                 run.broke("correspondence", "checker rejected request (%s): %s" % (verdict, req[:300]))
                 continue
+            if verdict == "true" and diag == "handedness changed" and meta.get("left_handed") and U.FORMATS.get(interface, {}).get("latkind") in ("cellpar", "triangular"):
+                # the format stores lengths and angles / a triangular cell: a left-handed basis is not representable; what comes
+                # back has the same metric and the same reduced positions, i.e. the mirror image (same spectrum)
+                run.count("left-handed cell not representable in %s: mirror image (same metric, same reduced positions) comes back" % interface, section="oracle")
+                representable.setdefault(interface, "lengths/angles or triangular cell: handedness not representable, mirror image returned")
+                continue
+            if verdict == "true" and meta.get("left_handed"):
+                representable.setdefault(interface, "left-handed lattice comes back as written")
             if verdict == "true" and diag == "handedness changed":
                 run.violation(site, "handedness" + _suffix(meta), "%s %s: the lattice read back is a mirror image (improper rotation)" % (interface, what),
                               dict(interface=interface, what=what, cell=_cell_dict(cin), **meta))
@@ -401,6 +410,10 @@ def _suffix(meta):
         s += "-wide-lattice"
     if meta.get("after_foreign"):
         s += "-after-foreign-input"
+    if meta.get("left_handed"):
+        s += "-left-handed"
+    elif meta.get("relabel"):
+        s += "-relabelled"
     return s
 
 
@@ -548,8 +561,17 @@ def check_roundtrips(run, rng, rt, ncells):
             plan.append(dict(layout="grouped", outside=False, moments=True, noncollinear=True))
         while len(plan) < ncells:
             plan.append(dict(moments=(m in U.MOMENT_RW and rng.random() < 0.4), integer_moments=(m == "crystal")))
-        for t, kw in enumerate(plan):
+        # description invariance: the same crystal with relabelled lattice vectors (always one det -1: left-handed)
+        relabel = [rng.choice(["swap12", "negate3", "invert"]), rng.choice(["shear", "cyclic"])]
+        for t, kw in enumerate(plan + [dict(layout="interleaved", outside=False, relabel=r) for r in relabel]):
+            rl = kw.pop("relabel", None) if isinstance(kw, dict) else None
             cell, meta = U.random_cell(rng, **kw)
+            if rl:
+                cell = gen.relabelled_cell(cell, gen.UNIMODULAR[rl])[0]
+                meta = dict(meta, relabel=rl, left_handed=bool(np.linalg.det(cell.cell) < 0))
+                run.count("cells: relabelled lattice vectors (%s)" % rl)
+                if meta["left_handed"]:
+                    run.count("cells: left-handed")
             what = "unit cell %d" % t
             path = "rt_%s_%d" % (m, t)
             run.case(("rt", m) + _cell_case(cell), nontrivial=meta["interleaved"] or meta["outside"] or meta["moments"] or meta["fine"])
@@ -898,8 +920,15 @@ def check_force_collection(run, rng, reps=1):
     status = {}
     convention = {}
     TOL = 2e-8  # eV/Angstrom; FORCE_SETS carries 10 decimals in the calculator's force unit
-    for rep, layout in enumerate(["grouped", "interleaved"] * reps):
+    for rep, layout in enumerate(["grouped", "interleaved"] * reps + ["left-handed"] * reps):
+        lh = layout == "left-handed"
+        if lh:
+            layout = rng.choice(["grouped", "interleaved"])
         cell, meta = U.random_cell(rng, natom=3 if rep < 2 else rng.randint(3, 4), layout=layout, outside=False)
+        if lh:
+            cell = gen.relabelled_cell(cell, gen.UNIMODULAR[rng.choice(["swap12", "negate3", "invert"])])[0]
+            layout = layout + "-left-handed"
+            run.count("force collection on a left-handed supercell", section="oracle")
         smat = np.diag(rng.choice([[2, 1, 1], [1, 2, 1], [1, 1, 2]]))
         with quiet():
             ph = Phonopy(cell, supercell_matrix=smat, primitive_matrix="P", log_level=0)
@@ -1083,11 +1112,14 @@ def _load_routes(run, c, u, ucell, smat, fc_native, qpts, f_plain, f_nac, scale,
 
 
 def check_unit_invariance(run, rng, names=None):
-    for k, name in enumerate(names or [rng.choice(["nacl_prim", "zincblende_prim", "cscl"])]):
+    names = names or [rng.choice(["nacl_prim", "zincblende_prim", "cscl"])]
+    for k, name in enumerate(names):
         _unit_invariance_once(run, rng, name, k)
+    # the same on a left-handed description of the crystal (lattice vectors relabelled with det -1)
+    _unit_invariance_once(run, rng, rng.choice(names), len(names), relabel=rng.choice(["swap12", "negate3", "invert"]))
 
 
-def _unit_invariance_once(run, rng, name, rep):
+def _unit_invariance_once(run, rng, name, rep, relabel=None):
     import phonopy
     import phonopy.units as PU
     from phonopy import Phonopy
@@ -1097,6 +1129,13 @@ def _unit_invariance_once(run, rng, name, rep):
 
     cell, _ = gen.make_cell(name)
     smat = np.diag([2, 2, 2])
+    qmap = None
+    if relabel:
+        cell_rh = cell
+        cell, qmap, smap = gen.relabelled_cell(cell, gen.UNIMODULAR[relabel])
+        smat = smap(smat)
+        name = "%s[%s, left-handed]" % (name, relabel)
+        run.count("unit invariance on a left-handed description", section="oracle")
     with quiet():
         ref = Phonopy(cell, supercell_matrix=smat, primitive_matrix="P", log_level=0)
     fc = gen.pair_fc(ref.supercell, cutoff=4.5)
@@ -1104,6 +1143,9 @@ def _unit_invariance_once(run, rng, name, rep):
     born = np.array([np.eye(3) * z, -np.eye(3) * z])
     eps = np.eye(3) * (2.0 + rng.randint(0, 8) / 4.0)
     qpts = [[0.0, 0.0, 0.0], [0.01, 0.0, 0.0], [0.5, 0.0, 0.0], [0.3, 0.2, 0.1], [0.02, 0.02, 0.0]]
+    qpts_rh = qpts
+    if qmap is not None:
+        qpts = [qmap(q).tolist() for q in qpts]
     top = os.getcwd()
 
     def born_file():
@@ -1128,10 +1170,38 @@ def _unit_invariance_once(run, rng, name, rep):
         os.chdir(top)
     ref.run_qpoints(qpts)
     f_plain = ref.get_qpoints_dict()["frequencies"].copy()
-    refn.run_qpoints(qpts)
+    try:
+        refn.run_qpoints(qpts)
+    except (ValueError, ZeroDivisionError, FloatingPointError, IndexError) as e:
+        if _site_of(e) is None:
+            raise
+        # no THz frequencies at all for a well-formed crystal description (eV/Angstrom units, Born charges given)
+        run.violation("phonopy.load(calculator)", "nac-frequencies-raise" + ("-left-handed" if qmap is not None else ""),
+                      "%s with Born charges: run_qpoints raises %s: %s at %s" % (name, type(e).__name__, e, _site_of(e)),
+                      dict(crystal=name, lattice=cell.cell.tolist(), scaled_positions=cell.scaled_positions.tolist(), symbols=list(cell.symbols),
+                           supercell_matrix=np.array(smat).tolist(), born=z, dielectric=float(eps[0, 0]), qpoints=qpts))
+        return
     f_nac = refn.get_qpoints_dict()["frequencies"].copy()
     if np.abs(f_nac - f_plain).max() < 1e-3:
         raise RuntimeError("harness: NAC has no effect on the reference")
+    if qmap is not None:
+        # the right-handed description of the same crystal: same spectrum at the mapped q-points (not a statement of C17
+        # itself - C02/C08 own it - so a difference breaks the correspondence of this stream, it is not a C17 failing input)
+        with quiet():
+            rh = Phonopy(cell_rh, supercell_matrix=np.diag([2, 2, 2]), primitive_matrix="P", log_level=0)
+        rh.force_constants = gen.pair_fc(rh.supercell, cutoff=4.5)
+        rh.run_qpoints(qpts_rh)
+        f_rh = rh.get_qpoints_dict()["frequencies"].copy()
+        rh.nac_params = {"born": born, "dielectric": eps, "factor": PU.Hartree * PU.Bohr}
+        rh.run_qpoints(qpts_rh)
+        f_rh_nac = rh.get_qpoints_dict()["frequencies"].copy()
+        sc2 = max(1.0, np.abs(f_rh_nac).max()) ** 2
+        d1 = np.abs(f_plain * np.abs(f_plain) - f_rh * np.abs(f_rh)).max()
+        d2 = np.abs(f_nac * np.abs(f_nac) - f_rh_nac * np.abs(f_rh_nac)).max()
+        run.count("left-handed vs right-handed description compared (spectrum at mapped q, without and with NAC)", section="oracle")
+        if d1 > 2e-6 * sc2 or d2 > 2e-6 * sc2:
+            run.broke("description-invariance", "%s: left-handed description gives another spectrum than the right-handed one at the mapped q-points "
+                      "(eigenvalue difference %.3g without NAC, %.3g with NAC)" % (name, d1, d2))
     ref.run_mesh([4, 4, 4])
     ref.run_thermal_properties(t_min=100, t_max=300, t_step=200)
     tp_ref = ref.get_thermal_properties_dict()
